@@ -434,9 +434,10 @@ def judge(case, acc):
             for p in t.predecessors:
                 exp[(p.id, t.id)] += 1
         acc.count('links_checked', nlinks)
-        if not bad and got != exp and 0 in {t.id for t in tasks} and \
+        if not bad and got != exp and 0 in ({t.id for t in tasks} | {p.id for t in tasks for p in t.predecessors}) and \
                 all(k[0] in ('S', 0) for k in list((exp - got).elements()) + list((got - exp).elements())):
-            # recorded finding F-V3: the start node is written with the node id 0, which is also a legal task id
+            # recorded finding F-V3: the start node is written with the node id 0, which is also a legal task id (of a member or of
+            # an outside task a member waits for)
             viol('network/edges/task-id-0-collides-with-start-node',
                  f'a task has id 0, the id of the Start node: missing {list((exp - got).elements())[:3]}, extra {list((got - exp).elements())[:3]}')
         elif bad or got != exp:
@@ -513,8 +514,41 @@ def judge(case, acc):
             viol(f'repr-html/{R.__name__}', '_repr_html_() is not one iframe whose srcdoc attribute, decoded by an HTML parser, equals to_html()')
 
 
+def _shift(o, delta):
+    """the same plan some whole weeks earlier or later (every date of the case moves, weekdays stay)"""
+    if isinstance(o, REAL):
+        return o + delta
+    if isinstance(o, dict):
+        return {k: _shift(v, delta) for k, v in o.items()}
+    if isinstance(o, list):
+        return [_shift(v, delta) for v in o]
+    if isinstance(o, tuple):
+        return tuple(_shift(v, delta) for v in o)
+    return o
+
+
 def gen_case(rnd):
     sc = sched.gen_case(rnd, 'fwd', n_max=7, fixed=False, externals=rnd.random() < 0.3)
+    if rnd.random() < 0.3:
+        # a plan that runs over the turn of the year (the last days of December belong to week 1 of the next ISO year)
+        sc = _shift(sc, td(days=-7 * rnd.choice([1, 1, 2, 53])))
+    if rnd.random() < 0.25:
+        # ids whose decimal spellings are prefixes and concatenations of each other (1, 11, 12, 112, ...): whatever a renderer
+        # derives from ids -- node names, link keys -- must keep such tasks and links apart
+        pool = [1, 11, 12, 2, 112, 21, 121, 111, 1121]
+        rnd.shuffle(pool)
+        for t_, i_ in zip(sc['tasks'], pool):
+            t_['id'] = i_
+        if len(sc['tasks']) >= 4 and rnd.random() < 0.5:
+            by = {t_['id']: k_ for k_, t_ in enumerate(sc['tasks'])}
+            for a_, b_ in rnd.choice([[(11, 2), (1, 12)], [(12, 1), (1, 21)], [(11, 21), (112, 1)], [(2, 11), (21, 1)]]):
+                if a_ in by and b_ in by:
+                    s_, p_ = by[b_], by[a_]          # task b_ waits for task a_
+                    if s_ in sched.ancestors_of(sc['tasks'], p_) or p_ in sched.ancestors_of(sc['tasks'], s_) or [s_, p_] in sc['links']:
+                        continue
+                    sc['links'].append([s_, p_])
+                    if sched.plain_cycle(sc['tasks'], sc['links']) or sched.effective_cycle(sc['tasks'], sc['links']):
+                        sc['links'].pop()
     for k_, e_ in enumerate(sc.get('externals') or []):
         e_['via_removed_branch'] = False
         e_['kid'] = None
